@@ -214,6 +214,7 @@ static std::string describe(bool coro_mode, const std::vector<int> &h) {
 
 // replays a history on a fresh world; returns the canonical key before teardown; checks the oracle after teardown
 static uint64_t run_history(seqx::Runner &R, bool coro_mode, const std::vector<int> &h, int maxh, std::vector<int> *next_enabled) {
+    R.idx++;  // cases are not dealt round-robin here, but a restart must know that some case was running
     R.begin(describe(coro_mode, h));
     int64_t base = seqx::live_allocs();
     uint64_t key = 0;
